@@ -84,20 +84,6 @@ fn observe(c: &Concrete<'_>, fill: u8, by: Option<&Concrete<'_>>) -> Built {
         };
         buf.truncate(used);
         disturb(false);
-        let unchecked = match (&size, &write) {
-            (Some(WRes::Ok(n)), WRes::Ok(_)) if *n >= 4 && *n <= 4096 && n % 4 == 0 => {
-                let mut big = vec![fill; n + 4];
-                match crate::guard::guarded(|| c.write_unchecked(&mut big)) {
-                    Ok(Some(w)) => {
-                        big.truncate(w.min(n + 4));
-                        Some(Ok(big))
-                    }
-                    Ok(None) => None,
-                    Err(_) => Some(Err(())),
-                }
-            }
-            _ => None,
-        };
         let exact = match (&size, &write) {
             (Some(WRes::Ok(n)), WRes::Ok(_)) if *n <= 4096 => {
                 let mut eb = vec![fill; *n];
@@ -105,6 +91,21 @@ fn observe(c: &Concrete<'_>, fill: u8, by: Option<&Concrete<'_>>) -> Built {
                     Ok(Some(w)) => {
                         eb.truncate(w.min(*n));
                         Some(Ok(eb))
+                    }
+                    Ok(None) => None,
+                    Err(_) => Some(Err(())),
+                }
+            }
+            _ => None,
+        };
+        disturb(false);
+        let unchecked = match (&size, &write) {
+            (Some(WRes::Ok(n)), WRes::Ok(_)) if *n >= 4 && *n <= 4096 && n % 4 == 0 => {
+                let mut big = vec![fill; n + 4];
+                match crate::guard::guarded(|| c.write_unchecked(&mut big)) {
+                    Ok(Some(w)) => {
+                        big.truncate(w.min(n + 4));
+                        Some(Ok(big))
                     }
                     Ok(None) => None,
                     Err(_) => Some(Err(())),
@@ -324,7 +325,19 @@ fn run_case(spec: &Spec, tape: &mut Tape, key_canon: u64, key_var: u64) -> Resul
     // a bystander: a sibling builder alive on the same thread, its calls interleaved with ours
     let beside = tape.choose(4) == 3;
     let shape = if beside { fnv1a(shape, b"+beside") } else { shape };
-    let bystander = if beside { Some(plan_canonical(&spec.sibling())) } else { None };
+    // ... of the same outer shape as the variant (the same wrappers around the sibling)
+    let bystander = if beside {
+        let sib = plan_canonical(&spec.sibling());
+        Some(match (wrap, sib) {
+            (1, Plan::Packet(pp)) => Plan::Pb(pp),
+            (2, p @ Plan::Packet(_)) => Plan::Compound(vec![p]),
+            (3, p @ Plan::Packet(_)) => Plan::Compound(vec![Plan::Compound(vec![p]), tail_plan()]),
+            (4, Plan::Packet(pp)) => Plan::Compound(vec![Plan::Pb(pp), tail_plan()]),
+            (_, p) => p,
+        })
+    } else {
+        None
+    };
     let a = build_and_write(&canonical, key_canon);
     let b = build_and_write_beside(&variant, key_var, probes, ctors, 0xa5, bystander.as_ref());
     let mut log = vec![format!("canonical: {canonical:?}"), format!("variant:   {variant:?}"), format!("canonical -> size {:?} write {:?} bytes {}", a.size, a.write, hex(&a.bytes)), format!("variant   -> size {:?} write {:?} bytes {}", b.size, b.write, hex(&b.bytes))];
